@@ -974,6 +974,10 @@ class _Simu(_IObserver, _params.Updatable, ABC):
 
         self.__mesh = mesh
 
+        # the solution fields are sized by the mesh: a Set_Iter override only restores the ones its
+        # iteration holds, the others must not keep the size of the previous mesh
+        self.__Init_Sols_n()
+
         # switching to another mesh in the history changes the connectivity
         clear_cached_computed_values(self)
 
